@@ -32,6 +32,8 @@ def init : State := ⟨0, 0, false, false, false, .s0, 0, 0, 0⟩
 
 inductive Op where
   | waiter                      -- the waiter's next atomic step (a no-op while asleep and not woken)
+  | restart                     -- the waiter abandons the current round / wait (future dropped, spurious
+                                -- restart of the burst loop) and starts over with `balance()`
   | onSent (k : Nat) (sawNormal : Bool)   -- waiter, between two `balance()` calls: state load + fetch_sub
   | rcvdLoad                    -- on_rcvd: `state.load() != NORMAL → return`
   | rcvdAdd (amt : Nat)         -- on_rcvd: `credit.fetch_add(amount * N)`
@@ -55,6 +57,7 @@ def step (s : State) : Op → State
       if s.bit then { s with bit := false, wpc := .s0 }              -- Ready: state = WAITING
       else { s with registered := true, woken := false, wpc := .asleep }   -- state = !CREDIT, waker stored
     | .asleep => if s.woken then { s with wpc := .s3 } else s
+  | .restart => { s with wpc := .s0 }
   | .onSent k sawNormal =>
     if s.wpc = .s0 ∧ sawNormal then { s with credit := s.credit - k } else s
   | .rcvdLoad => if s.st = 0 then { s with rcvd1 := s.rcvd1 + 1 } else s
